@@ -46,6 +46,9 @@ OUT_PRE = [
     ("(and (r) (not (not (p ?x))))", "double-not"),
     ("(forall (?z - t1) (and (p ?z)))", "top-forall"),
     ("(and (>= (- (g ?x)) -1))", "unary-minus"),
+    ("(and (not (>= (g ?x) 1)))", "not-comparison"), ("(and (p ?x) (not (< (f) (g ?y))))", "not-comparison"),
+    ("(and (or (r) (not (<= (g ?x) 2))))", "not-comparison"), ("(and (not (> (f) 1)) (not (p ?y)))", "not-comparison"),
+    ("(and (forall (?z - t1) (and (not (> (g ?z) 1)))))", "not-comparison"),
 ]
 OUT_EFF = [
     ("(p ?x)", "bare-effect"), ("(not (p ?x))", "bare-effect"), ("(and (and (p ?x)))", "nested-and"),
@@ -63,6 +66,9 @@ OUT_EFF = [
     ("(and (when (p ?x) (zz ?x)))", "undeclared-predicate"),
     ("(when (r) (p ?x))", "bare-when"),
     ("(and (assign (g ?x) (- (f))))", "unary-minus"),
+    ("(and (when (not (>= (f) 1)) (r)))", "not-comparison"), ("(and (when (and (p ?x) (not (< (g ?x) 2))) (not (p ?x))))", "not-comparison"),
+    ("(and (p ?x) (and (q ?x ?y) (r)))", "nested-and"), ("(and (increase (f) 1) (and (p ?y)) (not (r)))", "nested-and"),
+    ("(and (not (q ?x ?y)) (and (increase (g ?x) 1) (q ?y ?x)))", "nested-and"),
 ]
 
 
